@@ -274,6 +274,19 @@ class ClientTask:
                         c.token = w.tok()
                         cl.tm.savepoint()
                         sp0.rollback()
+                    elif step[0] == 'sprb':
+                        # a speculative change: savepoint, modify, a second
+                        # savepoint (which saves the object for the first
+                        # time), roll back to the first; what is read
+                        # afterwards is the snapshot's state again
+                        self.read(c, own)
+                        if c._p_oid in own:
+                            continue
+                        sp0 = cl.tm.savepoint()
+                        c.token = w.tok()
+                        cl.tm.savepoint()
+                        sp0.rollback()
+                        self.read(c, own)
                     elif step[0] == 'sp':
                         cl.tm.savepoint()
                 if txn.get('end', 'commit') == 'abort':
@@ -388,7 +401,9 @@ def gen_script(r, ncell, ntxn, write_p=0.5, rc_p=0.0, abort_p=0.08,
             else:
                 steps.append(['r', k])
         if r.random() < 0.1:
-            steps.insert(r.randrange(len(steps) + 1), ['sp', 0])
+            steps.insert(r.randrange(len(steps) + 1),
+                         r.choice((['sp', 0], ['sp', 0],
+                                   ['sprb', r.randrange(ncell)])))
         t = {'steps': steps}
         if r.random() < abort_p:
             t['end'] = r.choice(('abort', 'failvote'))
